@@ -174,7 +174,9 @@ def r2(ctx):
     ln = ctx.fn(MOLECULE, 'Molecule.__len__')
     it = ctx.fn(MOLECULE, 'Molecule.__iter__')
     ok = any(isinstance(r, ast.Return) and src(r.value) == 'len(self.fragments)' for r in walk_no_nested(ln)) and \
-        any(isinstance(l, ast.For) and src(l.iter) == 'self.fragments' for l in walk_no_nested(it))
+        (any(isinstance(l, ast.For) and src(l.iter) == 'self.fragments' for l in walk_no_nested(it)) or
+         any(isinstance(y, ast.YieldFrom) and src(y.value) in ('self.fragments', 'iter(self.fragments)') for y in walk_no_nested(it)) or
+         any(isinstance(r, ast.Return) and src(r.value) == 'iter(self.fragments)' for r in walk_no_nested(it)))
     ctx.emit('C06-R2', ok, MOLECULE, ln, 'len(molecule) and iteration both range over self.fragments', key='len-iter-same-container', nontrivial=False)
 
 
@@ -417,7 +419,32 @@ def r6(ctx):
             if got != want and bad is None:
                 bad = {'counts in order of first appearance': dict(counter), 'representative': got, 'first most frequent': want}
     except (_Unk, KeyError, IndexError, TypeError) as ex:
-        ctx.emit('C06-R6', False, MOLECULE, st[0], f'representative `{src(e)[:70]}` uses an idiom the selector evaluator does not know ({ex})', key='representative-umi', undecided=True)
+        # written with more steps than one selector expression: the method itself is run on counters filled in order of first appearance
+        try:
+            import collections
+            from ..consteval import module_scope, Evaluator, Instance
+            env = module_scope(ctx.ix, MOLECULE)
+            bad, n = None, 0
+            for counts in itertools.product((1, 2, 3), repeat=3):
+                counter = collections.Counter()
+                for u_, c_ in zip('ABC', counts):
+                    counter[u_] += c_
+                n += 1
+                mol = Instance(env['Molecule'], attrs={'umi_counter': counter, 'umi': None})
+                e2 = dict(env)
+                e2['mol'] = mol
+                Evaluator(e2, budget=5000).ev(ast.parse('mol.update_umi()', mode='eval').body, e2)
+                got = mol.attrs.get('umi')
+                want = max(zip('ABC', counts), key=lambda kv: kv[1])[0]
+                if got != want and bad is None:
+                    bad = {'counts in order of first appearance': dict(zip('ABC', counts)), 'representative': got, 'first most frequent': want}
+        except Exception as ex2:
+            ctx.emit('C06-R6', False, MOLECULE, st[0], f'representative `{src(e)[:70]}` uses an idiom the selector evaluator does not know ({ex}) and update_umi is outside the interpreted subset ({type(ex2).__name__})',
+                     key='representative-umi', undecided=True)
+            return
+        ctx.counters['interpreted_cases'] = ctx.counters.get('interpreted_cases', 0) + n
+        ctx.emit('C06-R6', bad is None, MOLECULE, st[0], f'update_umi interpreted on {n} insertion-ordered counters: ' + ('the representative is the first most frequent UMI' if bad is None else f'differs, e.g. {bad}'),
+                 key='representative-umi', witness=bad, what='Molecule.update_umi: tie between equally frequent UMIs is resolved to the later one')
         return
     ctx.counters['abstract_cases'] += n
     ctx.emit('C06-R6', bad is None, MOLECULE, st[0], f'representative `{src(e)[:70]}` on {n} insertion-ordered count vectors: ' + ('the first most frequent UMI' if bad is None else f'differs, e.g. {bad}'),
